@@ -1154,6 +1154,19 @@ func wgRunOne(b *BatchResult, prop string, seed, run uint64, p wgParams) {
 			}
 			wlh.Prelude = append(wlh.Prelude, pm)
 		}
+		switch r.intn(10) {
+		case 0, 1:
+			// the model under test itself was built (or rejected) just before
+			wlh.Prelude = append(wlh.Prelude, m)
+			b.Probes["histories_ending_with_the_same_model"]++
+		case 2, 3:
+			// ... or a version of it that is rejected half way through a tuple
+			// to userset: one more parent type, which lacks the relation
+			if bad := addRelationlessParent(r, m); bad != nil {
+				wlh.Prelude = append(wlh.Prelude, bad)
+				b.Probes["histories_ending_with_a_rejected_variant"]++
+			}
+		}
 		wlh.ReuseObject = r.chance(30)
 		ch := &wgCtx{wl: wlh, ref: c.ref, pm: c.pm, canon: c.canon, csnap: c.csnap}
 		s := canonS
